@@ -360,7 +360,7 @@ pub fn run(cfg: &Cfg) -> i32 {
                 names.push(format!("wide-eval/{}", <$K>::NAME));
                 jobs.push(Box::new(move |w: &mut dyn Write| {
                     let mut rep = Report::default();
-                    crate::c02w::wide_bool::<$K>(seed, cases, &mut rep);
+                    chunked(seed, cases, 500, &mut rep, |s, n, r| crate::c02w::wide_bool::<$K>(s, n, r));
                     rep.emit(w);
                 }));
             }
@@ -370,7 +370,7 @@ pub fn run(cfg: &Cfg) -> i32 {
                 names.push(format!("rand/{}/t{}", <$K>::NAME, threads));
                 jobs.push(Box::new(move |w: &mut dyn Write| {
                     let mut rep = Report::default();
-                    rand_job::<$K>(seed, cases, threads, &mut rep);
+                    chunked(seed, cases, 500, &mut rep, |s, n, r| rand_job::<$K>(s, n, threads, r));
                     rep.emit(w);
                 }));
             }
